@@ -116,4 +116,160 @@ theorem C15_dash_under_inverse (s : String) :
     ('_' ∉ s.toList → replaceChar '_' '-' (replaceChar '-' '_' s) = s) :=
   ⟨replaceChar_inverse '_' '-' s, replaceChar_inverse '-' '_' s⟩
 
+/-! ## inverse pairs -/
+
+theorem setFirst_absent (ps : List (Node × Node)) (a : String) (v : Node) (h : hasKey ps a = false) :
+    setFirst ps a v = ps ++ [(Node.scalar tStr a Mark.generated, v)] := by
+  induction ps with
+  | nil => rfl
+  | cons p rest ih =>
+    obtain ⟨k, x⟩ := p
+    simp only [hasKey, List.any_cons, Bool.or_eq_false_iff] at h
+    simp only [setFirst, h.1, Bool.false_eq_true, if_false, List.cons_append]
+    rw [ih (by simpa [hasKey] using h.2)]
+
+theorem valuesOf_removeFirst (ps : List (Node × Node)) (a : String) :
+    valuesOf (removeFirst ps a) a = (valuesOf ps a).tail := by
+  induction ps with
+  | nil => rfl
+  | cons p rest ih =>
+    obtain ⟨k, x⟩ := p
+    by_cases hk : k.keyIs a = true
+    · simp [removeFirst, valuesOf, hk]
+    · have hk' : k.keyIs a = false := by simpa using hk
+      simp only [removeFirst, hk', Bool.false_eq_true, if_false]
+      have : valuesOf ((k, x) :: removeFirst rest a) a = valuesOf (removeFirst rest a) a := by
+        simp [valuesOf, hk']
+      rw [this, ih]
+      simp [valuesOf, hk']
+
+theorem hasKey_of_valuesOf_nil (ps : List (Node × Node)) (a : String) (h : valuesOf ps a = []) :
+    hasKey ps a = false := by
+  cases hk : hasKey ps a with
+  | false => rfl
+  | true =>
+    simp only [hasKey, List.any_eq_true] at hk
+    obtain ⟨p, hp, hpk⟩ := hk
+    have : p.2 ∈ valuesOf ps a := by
+      simp only [valuesOf, List.mem_map, List.mem_filter]
+      exact ⟨p, ⟨hp, hpk⟩, rfl⟩
+    rw [h] at this; cases this
+
+/-- the remaining pairs of a well-formed item no longer hold the key attribute -/
+theorem rest_has_no_key (ps : List (Node × Node)) (ka : String) (v : Node) (h : valuesOf ps ka = [v]) :
+    hasKey (removeFirst ps ka) ka = false := by
+  apply hasKey_of_valuesOf_nil
+  rw [valuesOf_removeFirst, h]; rfl
+
+/-- **seq → map → seq, long form.**  A well-formed item (a mapping whose key attribute occurs once and
+holds a string) that is *not* reduced to the short form comes back as the same mapping with the key
+attribute moved to the end: the original data up to the position of the key attribute. -/
+theorem C15_seq_map_item_long (ka : String) (va : Option String) (t : String) (ps : Pairs) (m mk : Mark)
+    (kv : String) (hkey : valuesOf ps.toList ka = [.scalar tStr kv mk])
+    (hlong : ∀ va' k v, va = some va' → removeFirst ps.toList ka = [(k, v)] → k.keyIs va' = false) :
+    mapItemToSeq ka va (seqItemToPair ka va (.map t ps m)) =
+      some (.map t (Pairs.ofList (removeFirst ps.toList ka ++
+        [(Node.scalar tStr ka Mark.generated, Node.scalar tStr kv Mark.generated)])) m) := by
+  have hpair : seqItemToPair ka va (.map t ps m) =
+      (.scalar tStr kv mk, .map t (Pairs.ofList (removeFirst ps.toList ka)) m) := by
+    simp only [seqItemToPair, hkey, List.headD_cons]
+    split
+    · rename_i _ vaS k v hrest
+      have := hlong vaS k v rfl hrest
+      simp [this]
+    · rfl
+  rw [hpair]
+  simp only [mapItemToSeq, keyText, Pairs.toList_ofList]
+  rw [setFirst_absent _ _ _ (rest_has_no_key ps.toList ka _ hkey)]
+
+/-- **seq → map → seq, short form.**  When the value attribute is the sole remaining key and does not
+itself hold a mapping, the item is reduced to `key: value` and comes back as the two-attribute mapping. -/
+theorem C15_seq_map_item_short (ka va' : String) (t : String) (ps : Pairs) (m mk : Mark) (kv : String)
+    (k v : Node) (hkey : valuesOf ps.toList ka = [.scalar tStr kv mk])
+    (hrest : removeFirst ps.toList ka = [(k, v)]) (hk : k.keyIs va' = true) (hv : v.isMapNode = false) :
+    seqItemToPair ka (some va') (.map t ps m) = (.scalar tStr kv mk, v) ∧
+    mapItemToSeq ka (some va') (.scalar tStr kv mk, v) =
+      some (.map tMap (Pairs.ofList [(Node.scalar tStr va' Mark.generated, v),
+                                     (Node.scalar tStr ka Mark.generated, Node.scalar tStr kv Mark.generated)]) mk) := by
+  have hne : (va' == ka) = false := by
+    have hno := rest_has_no_key ps.toList ka _ hkey
+    rw [hrest] at hno
+    simp only [hasKey, List.any_cons, List.any_nil, Bool.or_false] at hno
+    cases k with
+    | scalar _ kt _ =>
+      simp only [Node.keyIs] at hk hno
+      have : kt = va' := by simpa using hk
+      subst this
+      simpa using hno
+    | seq _ _ _ => simp [Node.keyIs] at hk
+    | map _ _ _ => simp [Node.keyIs] at hk
+  constructor
+  · simp [seqItemToPair, hkey, hrest, hk]
+  · cases v with
+    | map _ _ _ => simp [Node.isMapNode] at hv
+    | scalar vt vv vm =>
+      simp [mapItemToSeq, keyText, setFirst, Node.keyIs, hne, Node.mark]
+    | seq vt vx vm =>
+      simp [mapItemToSeq, keyText, setFirst, Node.keyIs, hne, Node.mark]
+
+/-- **index → map → index.**  For an entry whose inner key attribute is the outer key (an *index*): the
+long form comes back with the key attribute (now holding the outer key node) at the end. -/
+theorem C15_index_item_long (ka : String) (va : Option String) (k0 : Node) (t : String) (ps : Pairs) (m : Mark)
+    (hlong : ∀ va' k v, va = some va' → ps.toList.filter (fun q => !q.1.keyIs ka) = [(k, v)] → k.keyIs va' = false) :
+    unindexItem ka va (indexItem ka va (k0, .map t ps m)) =
+      (k0, .map t (Pairs.ofList (ps.toList.filter (fun q => !q.1.keyIs ka) ++
+        [(Node.scalar tStr ka k0.mark, k0)])) m) := by
+  have hpair : indexItem ka va (k0, .map t ps m) =
+      (k0, .map t (Pairs.ofList (ps.toList.filter (fun q => !q.1.keyIs ka))) m) := by
+    simp only [indexItem]
+    split
+    · rename_i _ vaS k v hrest
+      have := hlong vaS k v rfl hrest
+      simp [this]
+    · rfl
+  rw [hpair]
+  simp [unindexItem, Pairs.toList_ofList]
+
+/-- index → map → index, short form (the value attribute is the sole other key and holds no mapping) -/
+theorem C15_index_item_short (ka va' : String) (k0 : Node) (t : String) (ps : Pairs) (m : Mark) (k v : Node)
+    (hrest : ps.toList.filter (fun q => !q.1.keyIs ka) = [(k, v)]) (hk : k.keyIs va' = true)
+    (hv : v.isMapNode = false) :
+    indexItem ka (some va') (k0, .map t ps m) = (k0, v) ∧
+    unindexItem ka (some va') (k0, v) =
+      (k0, .map tMap (Pairs.ofList [(Node.scalar tStr va' v.mark, v), (Node.scalar tStr ka k0.mark, k0)]) v.mark) := by
+  constructor
+  · simp [indexItem, hrest, hk]
+  · cases v with
+    | map _ _ _ => simp [Node.isMapNode] at hv
+    | scalar _ _ _ => simp [unindexItem]
+    | seq _ _ _ => simp [unindexItem]
+
+theorem mapM_map_pointwise {α β γ : Type} (f : α → β) (g : β → Option γ) (h : α → γ) :
+    ∀ (l : List α), (∀ x ∈ l, g (f x) = some (h x)) → (l.map f).mapM g = some (l.map h) := by
+  intro l
+  induction l with
+  | nil => intro _; rfl
+  | cons x rest ih =>
+    intro hx
+    have h1 := hx x List.mem_cons_self
+    have h2 := ih (fun y hy => hx y (List.mem_cons_of_mem _ hy))
+    simp only [List.map_cons, List.mapM_cons, h1, h2]
+    rfl
+
+/-- **seq → map → seq on the whole attribute value**: if every item comes back as `h item` (by the two
+item theorems above: the same mapping with the key attribute moved to the end, or the two-attribute
+mapping for a short-form item), the list of pairs `seq_attribute_to_map` builds is turned by
+`map_attribute_to_seq` into exactly the list of those items, in order. -/
+theorem C15_seq_map_seq_items (ka : String) (va : Option String) (h : Node → Node) (items : List Node)
+    (hitems : ∀ item ∈ items, mapItemToSeq ka va (seqItemToPair ka va item) = some (h item)) :
+    (items.map (seqItemToPair ka va)).mapM (mapItemToSeq ka va) = some (items.map h) :=
+  mapM_map_pointwise _ _ h items hitems
+
+/-- index → map → index on the whole attribute value, entry by entry and in order -/
+theorem C15_index_map_index_items (ka : String) (va : Option String) (h : Node × Node → Node × Node)
+    (ps : List (Node × Node)) (hps : ∀ p ∈ ps, unindexItem ka va (indexItem ka va p) = h p) :
+    (ps.map (indexItem ka va)).map (unindexItem ka va) = ps.map h := by
+  rw [List.map_map]
+  exact List.map_congr_left hps
+
 end YatimlModel.C15
